@@ -34,6 +34,7 @@ import (
 	"runtime"
 	"strings"
 	"sync"
+	"sync/atomic"
 	"time"
 
 	"github.com/sassoftware/relic/v8/config"
@@ -89,6 +90,15 @@ const statusHang = -1
 
 var hangBehaviour = behaviour{"hang-until-client-timeout", false}
 
+// statusStall: the authority sends 200, the headers and the first bytes of the
+// body, then nothing more. stallReleased counts stalls that ended because the
+// handler's own cap ran out, not because the client went away.
+const statusStall = -2
+const stallCap = 30 * time.Second
+
+var stallBehaviour = behaviour{"headers-then-stalled-body", false}
+var stallReleased atomic.Int64
+
 func urlTime(idx int) time.Time { return baseTime.Add(time.Duration(idx) * time.Hour) }
 
 func startAuthority() *httptest.Server {
@@ -109,6 +119,21 @@ func startAuthority() *httptest.Server {
 			}
 			return
 		}
+		if status == statusStall {
+			w.Header().Set("Content-Type", "application/timestamp-reply")
+			w.Header().Set("Content-Length", "3000")
+			w.WriteHeader(200)
+			w.Write([]byte{0x30, 0x82, 0x0b})
+			if fl, ok := w.(http.Flusher); ok {
+				fl.Flush()
+			}
+			select {
+			case <-r.Context().Done():
+			case <-time.After(stallCap):
+				stallReleased.Add(1)
+			}
+			return
+		}
 		if drop {
 			if hj, ok := w.(http.Hijacker); ok {
 				conn, _, _ := hj.Hijack()
@@ -125,6 +150,9 @@ func startAuthority() *httptest.Server {
 func answer(b behaviour, idx int, legacy bool, body []byte) (int, []byte, bool) {
 	if b.Name == hangBehaviour.Name {
 		return statusHang, nil, false
+	}
+	if b.Name == stallBehaviour.Name {
+		return statusStall, nil, false
 	}
 	t := urlTime(idx)
 	if legacy {
@@ -333,7 +361,7 @@ func signPhase(p attachPath, nurls int, hang bool) {
 				}
 			}
 			if hang {
-				alphabet = []behaviour{behaviours[0], {"http-500", false}, hangBehaviour}
+				alphabet = []behaviour{behaviours[0], {"http-500", false}, hangBehaviour, stallBehaviour}
 			}
 			st := mc.Explore(mc.Options{MaxDeviations: -1}, func(c *mc.Ctx) {
 				var seq []string
@@ -364,6 +392,7 @@ func signPhase(p attachPath, nurls int, hang bool) {
 				}
 				var serr error
 				panicked := ""
+				released := stallReleased.Load()
 				func() {
 					defer func() {
 						if r := recover(); r != nil {
@@ -379,6 +408,10 @@ func signPhase(p attachPath, nurls int, hang bool) {
 				replay := map[string]any{"path": p.Name, "urls": nurls, "choices": c.Trace, "labels": c.Labels, "answers": seq}
 				if os.Getenv("C10_DEBUG") != "" && p.Legacy {
 					fmt.Printf("DEBUG %s -> err=%v\n", desc, serr)
+				}
+				if stallReleased.Load() != released {
+					run.Violation("ts-sign:no-deadline-on-a-stalled-reply:"+p.Name, fmt.Sprintf("%s: timestamp.timeout is 1 s; the client was still waiting for the rest of a reply %v after its headers (the authority let go first)", desc, stallCap), replay)
+					return
 				}
 				if panicked != "" {
 					last := seq[len(seq)-1]
@@ -1090,7 +1123,7 @@ func main() {
 	if run.Fork(len(tasks)) {
 		run.Rule("sign side: every sequence of authority behaviours (16 for RFC 3161, 9 for the legacy protocol) over 1-2 (thorough 3) configured URLs, explored as a choice tree that ends at the first acceptable answer, x 9 attach paths (5 with an RSA key, 3 with ECDSA P-256, cosign's annotation read by the harness itself), through the real pipeline and HTTP client against a loopback authority; verify side: 3 leaf validity windows x {no token, valid token under either OID, token grafted from another signature} x 4 authorities x 7 attested times, all cases under one shared trust pool and judged twice (list forwards, then backwards). states = executions; distinct_nontrivial = sign sequences with >=2 requests + verify cases. Hanging authorities: every sequence over {valid, http-500, never answers} for 2 (thorough 3) URLs under a 1 s client timeout, on one RFC 3161 and the legacy path. Timestamp cache: a loopback memcached owned by the harness; 7 cache contents for this signature's key x store accepts / refuses new entries x 3 authority answers, through the real gomemcache client")
 		run.Assume("acceptable = status granted / granted-with-mods, nonce echoed, imprint (algorithm and value) equal to the digest of this signature value, token signature valid under the embedded authority certificate")
-		run.Assume("the authority's tokens are built by verif/tsa (validated against `openssl ts -verify` at development time); a hanging authority holds the request open until the client's own timeout (1 s, the smallest configurable) closes it: the only real-time wait in this check; when a healthy authority misses that timeout too the sequence is reported as not judged, never as a violation")
+		run.Assume("the authority's tokens are built by verif/tsa (validated against `openssl ts -verify` at development time); a hanging authority holds the request open until the client's own timeout (1 s, the smallest configurable) closes it, a stalling one sends headers and three body bytes and then holds the connection (a client that is still waiting 30 s later, 30 times its configured timeout, has no deadline on the body): the only real-time waits in this check; when a healthy authority misses that timeout too the sequence is reported as not judged, never as a violation")
 		run.Set("processes", len(tasks))
 		run.Finish()
 		return
